@@ -65,7 +65,6 @@ func c11ZeroArray(v ssa.Value) (int64, bool) {
 }
 
 func c11Framing(c *kit.Ctx, k *keyer, env *c11Env) {
-	mw := c.Func(c11PW, "(*PeerWriter).messageWriter")
 	fConn := c.Field(c11PW, "PeerWriter", "conn")
 	isConnWrite := func(ins ssa.Instruction) *ssa.Call {
 		call, ok := ins.(*ssa.Call)
@@ -74,46 +73,43 @@ func c11Framing(c *kit.Ctx, k *keyer, env *c11Env) {
 		}
 		return call
 	}
-	// no other function of the package writes to the connection
+	// every write on the peer connection in the package - wherever it is - is
+	// either the framed message write or the 4-zero-byte keep-alive
+	nFramed, nKeep := 0, 0
 	for _, fn := range c.ModuleFunctions() {
-		if !inPkg(fn, c, c11PW) || fn == mw {
+		if !inPkg(fn, c, c11PW) {
 			continue
 		}
+		fn := fn
 		kit.Instrs(fn, func(ins ssa.Instruction) {
-			if call := isConnWrite(ins); call != nil {
-				c.Bad("R11.3", k.key(fn, "conn.Write"), posOf(call), "the peer connection is written outside messageWriter: bytes that bypass the framing")
+			w := isConnWrite(ins)
+			if w == nil {
+				return
+			}
+			arg := w.Call.Args[0]
+			if n, ok := c11ZeroArray(arg); ok {
+				nKeep++
+				c.Check(n == 4, "R11.3", k.key(fn, "keep-alive"), posOf(w), "keep-alive is four zero bytes (length prefix 0, BEP 3)",
+					fmt.Sprintf("keep-alive writes %d zero bytes, BEP 3 prescribes a 4-byte zero length prefix", n))
+				return
+			}
+			key := k.key(fn, "framed write")
+			b := c11BytesOf(arg)
+			nb, _ := b.(*ssa.Call)
+			if nb == nil || !c11IsStatic(&nb.Call, "bytes", "", "NewBuffer") {
+				c.Bad("R11.3", key, posOf(w), "conn.Write(%s): neither the frame buffer (buf.Bytes() of a bytes.NewBuffer) nor a zero keep-alive: bytes that bypass the framing", kit.Canon(arg))
+				return
+			}
+			nFramed++
+			if bad := c11CheckFrame(c, fn, w, nb, env); len(bad) > 0 {
+				c.Bad("R11.3", key, posOf(w), "%s", strings.Join(bad, "; "))
+			} else {
+				c.OK("R11.3", key, posOf(w), "empty buffer, 5 bytes reserved before serialisation, [0:4] = BigEndian uint32(1 + n of WriteTo/ReadFrom of this message), [4] = msg.ID(), the same buffer is written")
 			}
 		})
 	}
-	nFramed, nKeep := 0, 0
-	kit.Instrs(mw, func(ins ssa.Instruction) {
-		w := isConnWrite(ins)
-		if w == nil {
-			return
-		}
-		arg := w.Call.Args[0]
-		if n, ok := c11ZeroArray(arg); ok {
-			nKeep++
-			c.Check(n == 4, "R11.3", k.key(mw, "keep-alive"), posOf(w), "keep-alive is four zero bytes (length prefix 0, BEP 3)",
-				fmt.Sprintf("keep-alive writes %d zero bytes, BEP 3 prescribes a 4-byte zero length prefix", n))
-			return
-		}
-		key := k.key(mw, "framed write")
-		b := c11BytesOf(arg)
-		nb, _ := b.(*ssa.Call)
-		if nb == nil || !c11IsStatic(&nb.Call, "bytes", "", "NewBuffer") {
-			c.Bad("R11.3", key, posOf(w), "conn.Write(%s): neither the frame buffer (buf.Bytes() of a bytes.NewBuffer) nor a zero keep-alive", kit.Canon(arg))
-			return
-		}
-		nFramed++
-		if bad := c11CheckFrame(c, mw, w, nb, env); len(bad) > 0 {
-			c.Bad("R11.3", key, posOf(w), "%s", strings.Join(bad, "; "))
-		} else {
-			c.OK("R11.3", key, posOf(w), "empty buffer, 5 bytes reserved before serialisation, [0:4] = BigEndian uint32(1 + n of WriteTo/ReadFrom of this message), [4] = msg.ID(), the same buffer is written")
-		}
-	})
-	c.Floor("R11.3", "framed conn.Write in messageWriter", nFramed, 1)
-	c.Floor("R11.3", "keep-alive conn.Write in messageWriter", nKeep, 1)
+	c.Floor("R11.3", "framed conn.Write in package peerwriter", nFramed, 1)
+	c.Floor("R11.3", "keep-alive conn.Write in package peerwriter", nKeep, 1)
 
 	// reader side of the framing: 4-byte big-endian length, 1-byte id, the
 	// id byte is subtracted exactly once
@@ -169,8 +165,11 @@ func c11Framing(c *kit.Ctx, k *keyer, env *c11Env) {
 func c11CheckFrame(c *kit.Ctx, mw *ssa.Function, w *ssa.Call, nb *ssa.Call, env *c11Env) (bad []string) {
 	buf := ssa.Value(nb)
 	// 1. empty initial content
-	if e := kit.Canon(nb.Call.Args[0]); !(e.IsNil() || (e.Kind == "slice" && len(e.Args) >= 3 && e.Args[2] != nil && func() bool { z, ok := e.Args[2].IntConst(); return ok && z == 0 }())) {
-		bad = append(bad, fmt.Sprintf("frame buffer starts with content %s: header bytes would not be at [0:5]", e))
+	// (a parameter of a helper stands for the argument at each of its call sites)
+	for _, iv := range c11ArgValues(c, nb.Call.Args[0], 2) {
+		if e := kit.Canon(iv); !(e.IsNil() || (e.Kind == "slice" && len(e.Args) >= 3 && e.Args[2] != nil && func() bool { z, ok := e.Args[2].IntConst(); return ok && z == 0 }())) {
+			bad = append(bad, fmt.Sprintf("frame buffer starts with content %s: header bytes would not be at [0:5]", e))
+		}
 	}
 	// 2. classify uses of the buffer
 	var reserve []*ssa.Call
@@ -382,7 +381,6 @@ func c11IfaceRoot(v ssa.Value) ssa.Value {
 // ---- R11.6 upload counter ------------------------------------------------------
 
 func c11UploadCounter(c *kit.Ctx, k *keyer, env *c11Env) {
-	mw := c.Func(c11PW, "(*PeerWriter).messageWriter")
 	cub := c.FuncObj(c11PW, "(*PeerWriter).countUploadBytes")
 	cubFn := c.Func(c11PW, "(*PeerWriter).countUploadBytes")
 	tPiece := c11Named(c, c11PW+".Piece")
@@ -391,10 +389,8 @@ func c11UploadCounter(c *kit.Ctx, k *keyer, env *c11Env) {
 	for _, s := range sortSites(c.CallSites(cub)) {
 		n++
 		key := k.key(s.Fn, "countUploadBytes")
-		if s.Fn != mw {
-			c.Bad("R11.6", key, posOf(s.Instr), "countUploadBytes called outside messageWriter: not tied to a framed conn.Write")
-			continue
-		}
+		// wherever the call is, it is tied to the framed conn.Write of the
+		// same function: its argument is that write's n
 		arg := argOf(s.Instr.Common(), 1)
 		ex, _ := arg.(*ssa.Extract)
 		var w *ssa.Call
@@ -418,7 +414,7 @@ func c11UploadCounter(c *kit.Ctx, k *keyer, env *c11Env) {
 			c.Bad("R11.6", key, posOf(s.Instr), "the conn.Write counted is not the framed message write")
 			continue
 		}
-		isPiece := c.AtomFlow(mw, func(a kit.Atom) bool {
+		isPiece := c.AtomFlow(s.Fn, func(a kit.Atom) bool {
 			return a.IsTrue(func(e *kit.Expr) bool {
 				if e.Kind != "extract" || e.Idx != 1 || e.Args[0].Kind != "typeassert" {
 					return false
@@ -1364,4 +1360,34 @@ func c11SumAlts(v ssa.Value, at ssa.Instruction) []c11Alt {
 		return []c11Alt{{leaves: []ssa.Value{v}, at: at}}
 	}
 	return rec(v, at, 0)
+}
+
+// c11ArgValues resolves a value that is a parameter of a function whose call
+// sites are all static to the argument values at those sites (depth levels);
+// any other value stands for itself.
+func c11ArgValues(c *kit.Ctx, v ssa.Value, depth int) []ssa.Value {
+	p, ok := v.(*ssa.Parameter)
+	if !ok || depth <= 0 {
+		return []ssa.Value{v}
+	}
+	fn := p.Parent()
+	idx := -1
+	for i, q := range fn.Params {
+		if q == p {
+			idx = i
+		}
+	}
+	sites := c.StaticCallSites(fn)
+	if idx < 0 || len(sites) == 0 {
+		return []ssa.Value{v}
+	}
+	var out []ssa.Value
+	for _, site := range sites {
+		call, _ := site.(*ssa.Call)
+		if call == nil || idx >= len(call.Call.Args) {
+			return []ssa.Value{v} // unknown context
+		}
+		out = append(out, c11ArgValues(c, call.Call.Args[idx], depth-1)...)
+	}
+	return out
 }
